@@ -276,8 +276,8 @@ class Ctx:
         if replay is not None and kind == "property":
             self.fallback = replay       # the most recent replay also serves if the symbolic run raises later on
         hyps = list(hyps) + list(extra_axioms)
-        if expect == "unsat" and getattr(St, "split_assume", None):
-            hyps += list(St.split_assume)
+        if expect == "unsat" and (getattr(St, "split_assume", None) or getattr(St, "split_pre", None)):
+            hyps += list(St.split_assume) + list(getattr(St, "split_pre", ()))
         ax = core.axioms_for([goal] + hyps) if axioms else []
         asserts = hyps + ax + [z3.Not(goal)]
         verdict, model, dt, solver = self.check_sat(asserts, timeout_ms)
@@ -691,6 +691,7 @@ def _worker(fn, pid, name, tier, kwargs, conn, soft_limit=None):
             St.reset(mode)
             St.notes |= notes
             St.split_assume = list(A)
+            St.split_pre = []
             ctx.split_tag = ("[branch outcome %d] " % attempt) if A else ""
             mark = ctx.mark()
             attempt += 1
